@@ -204,6 +204,32 @@ struct BlockPlan {
   bool rand = false;
 };
 
+// first n symbols of the order-3 de Bruijn sequence over k letters (FKM algorithm), rotated by `rot`: every
+// 3-gram occurs once per period, so the BWT output has (almost) no equal neighbours and the MTF stage produces
+// (almost) no zero-runs longer than one: the block has as many prefix-coded symbols as a block can have.
+inline std::vector<uint8_t> debruijn3(int k, size_t n, size_t rot) {
+  std::vector<uint8_t> seq;
+  const int order = 3;
+  std::vector<int> a(k * order + 1, 0);
+  std::function<void(int, int)> db = [&](int tt, int p) {
+    if (tt > order) {
+      if (order % p == 0)
+        for (int i = 1; i <= p; i++) seq.push_back((uint8_t)a[i]);
+    } else {
+      a[tt] = a[tt - p];
+      db(tt + 1, p);
+      for (int j = a[tt - p] + 1; j < k; j++) {
+        a[tt] = j;
+        db(tt + 1, tt);
+      }
+    }
+  };
+  db(1, 1);
+  std::vector<uint8_t> out(n);
+  for (size_t i = 0; i < n; i++) out[i] = (uint8_t)(32 + seq[(i + rot) % seq.size()]);
+  return out;
+}
+
 inline std::vector<uint8_t> gen_pre(Tape &t, int cap, const GenOptions &o, GenResult &R) {
   static const int sizes_small[] = {1, 2, 3, 5, 8, 13, 20, 50, 51, 100, 150, 151, 300, 700, 1500, 4000};
   uint32_t sc = t.pick(16);
@@ -213,6 +239,10 @@ inline std::vector<uint8_t> gen_pre(Tape &t, int cap, const GenOptions &o, GenRe
     static const int d[] = {0, -1, -2, -5, -50, -1000};
     n = cap + d[t.pick(6)];
     R.labels["block_at_capacity"]++;
+    if (t.pick(2)) {
+      R.labels["fam_debruijn"]++;
+      return debruijn3(97, (size_t)std::max(1, std::min(n, cap)), t.pick(65536));
+    }
   }
   n = std::max(1, std::min(n, cap));
   std::vector<uint8_t> pre;
@@ -656,6 +686,8 @@ inline void write_block(Emit &E, Tape &t, int level, const GenOptions &o, GenRes
   E.comb = ((E.comb << 1) | (E.comb >> 31)) ^ c_for_stream;
   plain += blk_plain;
   R.labels["blocks"]++;
+  if (need >= 18001) R.labels["groups_18001"]++;
+  if (need == 18002) R.labels["groups_18002"]++;
   if (n_in_use == 256) R.labels["alphabet_256"]++;
   if (n_in_use == 1) R.labels["alphabet_1"]++;
   if (n_groups == 6) R.labels["tables_6"]++;
